@@ -35,6 +35,7 @@ ASSUMPTIONS = [
     "comparison tolerance 1e-6 relative (1e-5 for randomized)",
 ]
 RULE = RULE + " " + pc._routes_rule() + " One case in 40 adds a table of more than 4096 rows (the data stacked r times against the data times sqrt r)."
+RULE = RULE + " " + 'One case in 300: 1025 / 1026 / 2049 rows with few columns (the sample-space route handles an n x n matrix).'
 MIX = (0.0, 0.05, 0.5, 0.5, 0.95, 1.0)
 
 
